@@ -16,11 +16,13 @@ import (
 	"net/http"
 	"os"
 	"path/filepath"
+	"reflect"
 	"sort"
 	"strings"
 	"sync"
 	"sync/atomic"
 	"time"
+	"unsafe"
 
 	"github.com/bluenviron/gortsplib/v5/pkg/description"
 	"github.com/bluenviron/gortsplib/v5/pkg/format"
@@ -316,17 +318,29 @@ func (v *vcPM) LivePaths() []string {
 	return out
 }
 
-// PathObj returns the live *path with that name (nil if none), read inside the manager's loop.
+// PathObj returns the live *path with that name (nil if none).
+// The exact implementation (a request through the manager's own loop) lives in shared_vcopt_pathobj_test.go, an
+// OPTIONAL harness file: it depends on unexported request types, and a tree that refactors those must not make every
+// core check fail to build. Without it, the map is read by reflection right after a barrier.
 func (v *vcPM) PathObj(name string) *path {
-	req := pathAPIPathsGetReq{name: name, res: make(chan pathAPIPathsGetRes)}
-	select {
-	case v.pathManager.chAPIPathsGet <- req:
-		res := <-req.res
-		return res.path
-	case <-v.pathManager.ctx.Done():
+	if vcPathObjImpl != nil {
+		return vcPathObjImpl(v.pathManager, name)
+	}
+	v.Barrier()
+	f := reflect.ValueOf(v.pathManager).Elem().FieldByName("paths")
+	if !f.IsValid() || f.Kind() != reflect.Map {
+		panic("harness: pathManager has no 'paths' map any more")
+	}
+	m := reflect.NewAt(f.Type(), unsafe.Pointer(f.UnsafeAddr())).Elem()
+	e := m.MapIndex(reflect.ValueOf(name))
+	if !e.IsValid() {
 		return nil
 	}
+	pa, _ := e.Interface().(*path)
+	return pa
 }
+
+var vcPathObjImpl func(pm *pathManager, name string) *path
 
 // vcWaitUntil polls cond up to max; reports whether it became true.
 func vcWaitUntil(max time.Duration, cond func() bool) bool {
